@@ -261,6 +261,15 @@ impl World {
     pub fn restart(&mut self, allow: Option<HashSet<Uuid>>, cfg: Cfg) -> anyhow::Result<()> {
         self.app = None;
         self.others.clear();
+        // a restarted server is a new process: in some runs a fresh child process opens the directory
+        // first (start-up code guarded by process-wide state runs there)
+        if self.seed % 5 == 0 {
+            if let Some(d) = &self.store.dir {
+                if !crate::world::first_open_in_fresh_process(d) {
+                    anyhow::bail!("a freshly started process cannot open the data directory");
+                }
+            }
+        }
         self.store.reopen()?;
         self.allow = allow.clone();
         self.cfg = cfg;
